@@ -2,6 +2,7 @@ import Driver.Codec
 import WebAuthnModel.Model.KeyDesc
 import WebAuthnModel.Model.Url
 import WebAuthnModel.Model.Json
+import WebAuthnModel.Model.San
 import WebAuthnModel.Model.Tpm2
 import Driver.Asks
 /- JSON form of `encoding/asn1` struct values: a struct is the array of its members in declaration order; integers travel as
@@ -111,6 +112,13 @@ def handleAsn1 (op : String) (j : Json) : Except String (Option Json) := do
     | some pa =>
       return some (Json.mkObj [("ok", true), ("nameAlg", pa.nameAlg), ("key", match pa.key with | some k => keyMatJson k | none => Json.null),
         ("encoded", optHex pa.encoded)])
+  | "san.details" =>
+    let vals ← getHexList j "sans"
+    let parsed := vals.map San.parseExt
+    if parsed.any (fun p => !p.2) then return some (Json.mkObj [("unmodelled", true)])
+    match Tpm.detailsFromSan (parsed.map (·.1)) with
+    | some d => return some (Json.mkObj [("ok", true), ("vendorId", hex d.vendorId), ("vendorName", d.vendorName), ("part", hex d.partNumber), ("fw", hex d.firmwareVersion)])
+    | none => return some (Json.mkObj [("ok", false)])
   | "url.host" =>
     match Url.hostOf (← getHex j "s") with
     | some h => return some (Json.mkObj [("ok", true), ("host", hex h)])
